@@ -427,6 +427,44 @@ Definition ro (st : cstate) (h : nat) : bool :=
 Definition row_of (st : cstate) (h : nat) : option crow :=
   option_map h_row (nth_error (s_hs st) h).
 
+(* two positions of ONE handle between which a move is meaningful: neither lies inside the other.
+   rows: the paths differ in a field or in the element index of the same slice; slots (path, field): likewise,
+   a slot and anything inside one of its own elements do not diverge *)
+Fixpoint diverge (p1 p2 : path) : bool :=
+  match p1, p2 with
+  | PS j i :: q1, PS j' i' :: q2 => if Nat.eqb j j' && Nat.eqb i i' then diverge q1 q2 else true
+  | PR j :: q1, PR j' :: q2 => if Nat.eqb j j' then diverge q1 q2 else true
+  | PS j _ :: _, PR j' :: _ => negb (Nat.eqb j j')
+  | PR j :: _, PS j' _ :: _ => negb (Nat.eqb j j')
+  | _, _ => false
+  end.
+Definition step_fld (s : pstep) : nat := match s with PS j _ => j | PR j => j end.
+Fixpoint sdiverge (p1 : path) (j1 : nat) (p2 : path) (j2 : nat) : bool :=
+  match p1, p2 with
+  | [], [] => negb (Nat.eqb j1 j2)
+  | [], s :: _ => negb (Nat.eqb j1 (step_fld s))
+  | s :: _, [] => negb (Nat.eqb (step_fld s) j2)
+  | PS j i :: q1, PS j' i' :: q2 =>
+      if Nat.eqb j j' then (if Nat.eqb i i' then sdiverge q1 j1 q2 j2 else true) else true
+  | PR j :: q1, PR j' :: q2 => if Nat.eqb j j' then sdiverge q1 j1 q2 j2 else true
+  | s1 :: _, s2 :: _ => negb (Nat.eqb (step_fld s1) (step_fld s2))
+  end.
+
+(* a move between two diverging positions of the SAME handle: read the source, empty it, write the destination *)
+Definition csame {X} (st : cstate) (h : nat) (rd : crow -> option X) (usrc : crow -> option crow)
+           (udst : X -> crow -> option crow) : cstate * nat :=
+  match row_of st h with
+  | Some r =>
+      match rd r with
+      | Some s => match opt_bind (usrc r) (udst s) with
+                  | Some r2 => (set_row st h r2, 0)
+                  | None => (st, 2)
+                  end
+      | None => (st, 2)
+      end
+  | None => (st, 2)
+  end.
+
 (* result code of a step: 0 done, 1 panic "invalid access to shared data" (state unchanged),
    2 fault (the program does not type-check against the state: bad handle / path / field) *)
 Definition cstep (sc : schema) (st : cstate) (o : op) : cstate * nat :=
@@ -467,7 +505,11 @@ Definition cstep (sc : schema) (st : cstate) (o : op) : cstate * nat :=
       end
   | OMoveSlot h1 p1 j1 h2 p2 j2 =>
       if ro st h1 || ro st h2 then (st, 1) else
-      if Nat.eqb h1 h2 then (st, 2) else
+      if Nat.eqb h1 h2 then
+        (if sdiverge p1 j1 p2 j2
+         then csame st h1 (fun r => opt_bind (cget r p1) (fun q => nth_error q j1))
+                    (fun r => cupd r p1 (on_slot j1 cmoved)) (fun s r => cupd r p2 (on_slot j2 (fun _ => s)))
+         else (st, 2)) else
       match opt_bind (row_of st h1) (fun r => opt_bind (cget r p1) (fun q => nth_error q j1)) with
       | Some s =>
           match opt_bind (row_of st h2) (fun r => cupd r p2 (on_slot j2 (fun _ => s))),
@@ -479,7 +521,11 @@ Definition cstep (sc : schema) (st : cstate) (o : op) : cstate * nat :=
       end
   | OMoveRow n h1 p1 h2 p2 =>
       if ro st h1 || ro st h2 then (st, 1) else
-      if Nat.eqb h1 h2 then (st, 2) else
+      if Nat.eqb h1 h2 then
+        (if diverge p1 p2
+         then csame st h1 (fun r => cget r p1) (fun r => cupd r p1 (fun _ => Some (czero_row sc n)))
+                    (fun s r => cupd r p2 (fun _ => Some s))
+         else (st, 2)) else
       match opt_bind (row_of st h1) (fun r => cget r p1) with
       | Some s =>
           match opt_bind (row_of st h2) (fun r => cupd r p2 (fun _ => Some s)),
@@ -491,7 +537,12 @@ Definition cstep (sc : schema) (st : cstate) (o : op) : cstate * nat :=
       end
   | OMoveAppend newcap h1 p1 j1 h2 p2 j2 =>
       if ro st h1 || ro st h2 then (st, 1) else
-      if Nat.eqb h1 h2 then (st, 2) else
+      if Nat.eqb h1 h2 then
+        (if sdiverge p1 j1 p2 j2
+         then csame st h1 (fun r => opt_bind (opt_bind (cget r p1) (fun q => nth_error q j1)) (fun s => if is_cs s then Some s else None))
+                    (fun r => cupd r p1 (on_slot j1 (fun _ => CS None)))
+                    (fun s r => cupd r p2 (on_slot j2 (on_cs (fun d => if cs_nil d then s else capp d (cs_live s) newcap))))
+         else (st, 2)) else
       match opt_bind (row_of st h1) (fun r => opt_bind (cget r p1) (fun q => nth_error q j1)) with
       | Some s =>
           if negb (is_cs s) then (st, 2) else
@@ -556,6 +607,20 @@ Definition aset_row (st : astate) (h : nat) (r : vrow) : astate :=
   | None => st
   end.
 
+Definition asame {X} (st : astate) (h : nat) (rd : vrow -> option X) (usrc : vrow -> option vrow)
+           (udst : X -> vrow -> option vrow) : astate * nat :=
+  match arow_of st h with
+  | Some r =>
+      match rd r with
+      | Some s => match opt_bind (usrc r) (udst s) with
+                  | Some r2 => (aset_row st h r2, 0)
+                  | None => (st, 2)
+                  end
+      | None => (st, 2)
+      end
+  | None => (st, 2)
+  end.
+
 Definition astep (sc : schema) (st : astate) (o : op) : astate * nat :=
   match o with
   | ONew n => (st ++ [mkA false n (vzero_row sc n)], 0)
@@ -592,7 +657,11 @@ Definition astep (sc : schema) (st : astate) (o : op) : astate * nat :=
       end
   | OMoveSlot h1 p1 j1 h2 p2 j2 =>
       if aro st h1 || aro st h2 then (st, 1) else
-      if Nat.eqb h1 h2 then (st, 2) else
+      if Nat.eqb h1 h2 then
+        (if sdiverge p1 j1 p2 j2
+         then asame st h1 (fun r => opt_bind (aget r p1) (fun q => nth_error q j1))
+                    (fun r => aupd r p1 (on_slot j1 vmoved)) (fun s r => aupd r p2 (on_slot j2 (fun _ => s)))
+         else (st, 2)) else
       match opt_bind (arow_of st h1) (fun r => opt_bind (aget r p1) (fun q => nth_error q j1)) with
       | Some s =>
           match opt_bind (arow_of st h2) (fun r => aupd r p2 (on_slot j2 (fun _ => s))),
@@ -604,7 +673,11 @@ Definition astep (sc : schema) (st : astate) (o : op) : astate * nat :=
       end
   | OMoveRow n h1 p1 h2 p2 =>
       if aro st h1 || aro st h2 then (st, 1) else
-      if Nat.eqb h1 h2 then (st, 2) else
+      if Nat.eqb h1 h2 then
+        (if diverge p1 p2
+         then asame st h1 (fun r => aget r p1) (fun r => aupd r p1 (fun _ => Some (vzero_row sc n)))
+                    (fun s r => aupd r p2 (fun _ => Some s))
+         else (st, 2)) else
       match opt_bind (arow_of st h1) (fun r => aget r p1) with
       | Some s =>
           match opt_bind (arow_of st h2) (fun r => aupd r p2 (fun _ => Some s)),
@@ -616,7 +689,12 @@ Definition astep (sc : schema) (st : astate) (o : op) : astate * nat :=
       end
   | OMoveAppend _ h1 p1 j1 h2 p2 j2 =>
       if aro st h1 || aro st h2 then (st, 1) else
-      if Nat.eqb h1 h2 then (st, 2) else
+      if Nat.eqb h1 h2 then
+        (if sdiverge p1 j1 p2 j2
+         then asame st h1 (fun r => opt_bind (opt_bind (aget r p1) (fun q => nth_error q j1)) (fun s => if is_vs s then Some s else None))
+                    (fun r => aupd r p1 (on_slot j1 (fun _ => VS [])))
+                    (fun s r => aupd r p2 (on_slot j2 (on_vs (fun d => vapp d (vs_rows s)))))
+         else (st, 2)) else
       match opt_bind (arow_of st h1) (fun r => opt_bind (aget r p1) (fun q => nth_error q j1)) with
       | Some s =>
           if negb (is_vs s) then (st, 2) else
